@@ -147,6 +147,30 @@ theorem contents_composite (ws : Workspace) (inv : Str) (cfg : Config) (seed : F
       rw [this]
       exact compositeItems_packaged _ _
 
+/-- **M2 `contents`, composite buildpacks: the references.** With C14's theorems: in the written `package.toml` of a
+packaged composite the number of dependencies is unchanged and every `libcnb:<id>` reference has become, at its
+position, the output directory of the buildpack with that id — a buildpack packaged in this very run (absolute package
+directory; `libcnb:` references without an authority part, C14's boundary). -/
+theorem composite_refs_resolved (ws : Workspace) (inv : Str) (cfg : Config) (seed : FS) (res : Result)
+    (nodes : List DepGraph.Node) (hwf : WellFormed ws nodes) (h : package ws inv cfg seed = .ok res) (bp : Buildpack)
+    (hbp : bp ∈ nodesOf ws) (hb : bp.id ∈ res.built) (pkg : Descriptor) (hk : bp.kind = .composite pkg)
+    (hna : C14.NoLibcnbAuthority pkg) (habs : Spec.PathDenote.isAbsolute (packageDirAbs ws inv cfg) = true) :
+    ∃ out, lookup res.fs (destPath cfg bp.id ++ relPackageToml) = some (.file (.pkg out)) ∧
+      out.deps.length = pkg.deps.length ∧
+      ∀ (i : Nat) (dep id : Str), pkg.deps[i]? = some dep → Spec.PathDenote.kindOf dep = .libcnb id →
+        ∃ b ∈ nodesOf ws, b.id.toList = id ∧ b.id ∈ res.built ∧
+          out.deps[i]? = some (destStr (packageDirAbs ws inv cfg) cfg b.id) := by
+  obtain ⟨paths, out, hd, hpaths, hpc⟩ := contents_composite ws inv cfg seed res nodes hwf h bp hbp hb pkg hk
+  refine ⟨out, hpc.package, (C14.shape_preserved _ _ _ _ hd).1, ?_⟩
+  intro i dep id hdep hkind
+  have hp : C14.PathsAbsolute paths := by
+    intro id' p hp'
+    obtain ⟨b, _, _, _, rfl⟩ := hpaths id' p hp'
+    exact isAbsolute_destStr cfg b.id habs
+  obtain ⟨p, hp1, hp2⟩ := C14.libcnb_replaced paths _ pkg out hp hna hd i dep id hdep hkind
+  obtain ⟨b, hb1, hb2, hb3, rfl⟩ := hpaths id p hp1
+  exact ⟨b, hb1, hb2, hb3, hp2⟩
+
 /-- **M3 `stdout_exact`** ("prints exactly the selected buildpacks' output directories"). The lines on stdout are the
 output directories of the selected buildpacks — each selected buildpack once, no dependency that was not itself
 selected, nothing else. -/
@@ -221,17 +245,26 @@ theorem stale_independent (ws : Workspace) (inv : Str) (cfg : Config) (seed₁ s
     right
     exact ⟨s, hs, by rw [plan_steps_dest hp s hs]; exact isPrefixOf_append _ _⟩
 
-/-- **M4 (frame; "exactly").** Outside the output directories of the packaged buildpacks a run changes nothing below the
-package directory. -/
+/-- **M4 (frame; "exactly").** A run changes nothing below the package directory except at or below the output
+directories of the packaged buildpacks and the directories on the way to them (`<target>`, `<target>/<profile>`, which
+`create_dir_all` makes). -/
 theorem untouched_elsewhere (ws : Workspace) (inv : Str) (cfg : Config) (seed : FS) (res : Result)
     (h : package ws inv cfg seed = .ok res) (q : Path)
-    (hq : ∀ id ∈ res.built, (destPath cfg id).isPrefixOf q = false) :
+    (hq : ∀ id ∈ res.built, (destPath cfg id).isPrefixOf q = false ∧ q.isPrefixOf (destPath cfg id) = false) :
     lookup res.fs q = lookup seed q := by
   obtain ⟨pl, hp, rfl⟩ := package_ok h
   apply lookup_steps_outside
-  intro s hs
-  rw [plan_steps_dest hp s hs]
-  exact hq s.id (List.mem_map.2 ⟨s, hs, rfl⟩)
+  · intro s hs
+    rw [plan_steps_dest hp s hs]
+    exact (hq s.id (List.mem_map.2 ⟨s, hs, rfl⟩)).1
+  · intro s hs
+    rw [plan_steps_dest hp s hs]
+    cases hm : isMadeDir (destPath cfg s.id) q with
+    | false => rfl
+    | true =>
+      have := (hq s.id (List.mem_map.2 ⟨s, hs, rfl⟩)).2
+      rw [(isMadeDir_prefix hm).1] at this
+      cases this
 
 /-- **M5 `main_target_rule`.** `determine_buildpack_cargo_target_name` finds the main binary exactly when the
 specification determines one, and then the same: no bin target ⇒ `NoBinTargets`; one ⇒ that one whatever its name;
